@@ -100,6 +100,9 @@ def clone(x):
     return x
 
 
+CLEANUP_ERRORS = []
+
+
 class Registry:
     """The registrations a scenario makes (and must undo)."""
 
@@ -118,8 +121,14 @@ class Registry:
         return f
 
     def unregister_all(self):
+        # undoing the scenario's own registrations must succeed; if it does not, the registry lost or changed one of them behind
+        # the scenario's back -- recorded (the run reports it as a violation, see pool.run_in_child), never raised from cleanup
         for cls, ns, _ in reversed(self.live):
-            optree.unregister_pytree_node(cls, namespace=ns)
+            try:
+                optree.unregister_pytree_node(cls, namespace=ns)
+            except Exception as e:  # noqa: BLE001
+                CLEANUP_ERRORS.append('unregistering %s from %r, which this scenario registered there, raised %s: %s' % (
+                    getattr(cls, '__name__', cls), '<global>' if ns is GLOBAL else ns, type(e).__name__, e))
         self.live = []
 
 
